@@ -361,35 +361,22 @@ Section SkeletonProofs.
   Hypothesis normalise_spec : forall s, Normalised (normalise s).
   Hypothesis sweep_keeps_weights : forall s, UnitWeights s -> UnitWeights (sweep s).
 
-  (* --- the code as it is: normalised unless (user init and no sweep) or a callback stop *)
+  (* --- the code as it is (after 3de556b): normalised on every path, for every decision sequence and every cap *)
   Lemma cp_loop_normalised tol_set fuel : forall it decisions s,
-    no_callback_stop decisions -> 0 < fuel \/ Normalised s ->
-    Normalised (cp_loop St sweep normalise true tol_set it fuel decisions s).
+    Normalised s -> Normalised (cp_loop St sweep normalise true tol_set it fuel decisions s).
   Proof.
-    induction fuel as [|fuel IH]; intros it decisions s Hcb H.
-    - simpl. destruct H as [H|H]; [lia | exact H].
-    - cbn [cp_loop]. rewrite (no_callback_stop_hd _ Hcb).
-      destruct (tol_set && (1 <=? it) && snd (hd (false, false) decisions)); [apply normalise_spec|].
-      apply IH; [now apply no_callback_stop_tl|]. right. apply normalise_spec.
+    induction fuel as [|fuel IH]; intros it decisions s H; [exact H|]. cbn [cp_loop]. unfold norm_if.
+    destruct (fst (hd (false, false) decisions)); [apply normalise_spec|].
+    destruct (tol_set && (1 <=? it) && snd (hd (false, false) decisions)); [apply normalise_spec|].
+    apply IH. apply normalise_spec.
   Qed.
   Lemma cp_run_normalised tol_set ik all_fixed n decisions s0 :
-    no_callback_stop decisions -> ik <> InitUser \/ (0 < n /\ all_fixed = false) ->
     Normalised (cp_run St sweep normalise true tol_set ik all_fixed n decisions s0).
   Proof.
-    intros Hcb H. unfold cp_run.
-    assert (Hi : ik <> InitUser -> Normalised (init_state St normalise true ik s0)).
-    { intros Hik. unfold init_state, norm_if. destruct ik; try apply normalise_spec. congruence. }
-    destruct all_fixed.
-    - destruct H as [H|[_ H]]; [now apply Hi | discriminate].
-    - apply cp_loop_normalised; [exact Hcb|]. destruct H as [H|[H _]]; [right; now apply Hi | left; exact H].
+    unfold cp_run, norm_if. destruct all_fixed; [apply normalise_spec|].
+    apply cp_loop_normalised. apply normalise_spec.
   Qed.
-  (* a callback stop after a sweep hands back exactly what the sweep produced *)
-  Lemma cp_loop_callback_stop nf tol_set it fuel decisions s :
-    fst (hd (false, false) decisions) = true ->
-    cp_loop St sweep normalise nf tol_set it (S fuel) decisions s = sweep s.
-  Proof. intros H. cbn [cp_loop]. now rewrite H. Qed.
-
-  (* --- normalize_factors = False: the weights stay all ones on EVERY path *)
+  (* --- normalize_factors = False: the weights stay all ones on every path *)
   Lemma cp_loop_unit_weights tol_set fuel : forall it decisions s,
     UnitWeights s -> UnitWeights (cp_loop St sweep normalise false tol_set it fuel decisions s).
   Proof.
@@ -400,79 +387,71 @@ Section SkeletonProofs.
   Qed.
   Lemma cp_run_unit_weights tol_set ik all_fixed n decisions s0 :
     UnitWeights s0 -> UnitWeights (cp_run St sweep normalise false tol_set ik all_fixed n decisions s0).
-  Proof.
-    intros H. unfold cp_run.
-    assert (Hi : UnitWeights (init_state St normalise false ik s0)) by (unfold init_state, norm_if; destruct ik; exact H).
-    destruct all_fixed; [exact Hi|]. now apply cp_loop_unit_weights.
-  Qed.
+  Proof. intros H. unfold cp_run, norm_if. destruct all_fixed; [exact H|]. now apply cp_loop_unit_weights. Qed.
+  (* the number of sweeps is what the decisions say: with the cap 0 the result is the (normalised) initialisation *)
+  Lemma cp_run_cap0 nf tol_set ik all_fixed decisions s0 :
+    cp_run St sweep normalise nf tol_set ik all_fixed 0 decisions s0 = norm_if St normalise nf s0.
+  Proof. unfold cp_run. now destruct all_fixed. Qed.
 
-  (* --- the candidate repair: normalised on every path, for every decision sequence and every cap *)
-  Lemma cp_loop_fix_normalised tol_set fuel : forall it decisions s,
-    Normalised s -> Normalised (cp_loop_fix St sweep normalise true tol_set it fuel decisions s).
+  (* --- the control flow before 3de556b: normalised unless (user init and no sweep) or a callback stop *)
+  Lemma cp_loop_old_normalised tol_set fuel : forall it decisions s,
+    no_callback_stop decisions -> 0 < fuel \/ Normalised s ->
+    Normalised (cp_loop_old St sweep normalise true tol_set it fuel decisions s).
   Proof.
-    induction fuel as [|fuel IH]; intros it decisions s H; [exact H|]. cbn [cp_loop_fix]. unfold norm_if.
-    destruct (fst (hd (false, false) decisions)); [apply normalise_spec|].
-    destruct (tol_set && (1 <=? it) && snd (hd (false, false) decisions)); [apply normalise_spec|].
-    apply IH. apply normalise_spec.
+    induction fuel as [|fuel IH]; intros it decisions s Hcb H.
+    - simpl. destruct H as [H|H]; [lia | exact H].
+    - cbn [cp_loop_old]. rewrite (no_callback_stop_hd _ Hcb).
+      destruct (tol_set && (1 <=? it) && snd (hd (false, false) decisions)); [apply normalise_spec|].
+      apply IH; [now apply no_callback_stop_tl|]. right. apply normalise_spec.
   Qed.
-  Lemma cp_run_fix_normalised tol_set ik all_fixed n decisions s0 :
-    Normalised (cp_run_fix St sweep normalise true tol_set ik all_fixed n decisions s0).
+  Lemma cp_run_old_normalised tol_set ik all_fixed n decisions s0 :
+    no_callback_stop decisions -> ik <> InitUser \/ (0 < n /\ all_fixed = false) ->
+    Normalised (cp_run_old St sweep normalise true tol_set ik all_fixed n decisions s0).
   Proof.
-    unfold cp_run_fix, norm_if. destruct all_fixed; [apply normalise_spec|].
-    apply cp_loop_fix_normalised. apply normalise_spec.
+    intros Hcb H. unfold cp_run_old.
+    assert (Hi : ik <> InitUser -> Normalised (init_state_old St normalise true ik s0)).
+    { intros Hik. unfold init_state_old, norm_if. destruct ik; try apply normalise_spec. congruence. }
+    destruct all_fixed.
+    - destruct H as [H|[_ H]]; [now apply Hi | discriminate].
+    - apply cp_loop_old_normalised; [exact Hcb|]. destruct H as [H|[H _]]; [right; now apply Hi | left; exact H].
   Qed.
-  Lemma cp_loop_fix_unit_weights tol_set fuel : forall it decisions s,
-    UnitWeights s -> UnitWeights (cp_loop_fix St sweep normalise false tol_set it fuel decisions s).
+  (* the repair changed nothing on the paths on which the code was already right *)
+  Lemma cp_loop_same nf tol_set fuel : forall it decisions s, no_callback_stop decisions ->
+    cp_loop St sweep normalise nf tol_set it fuel decisions s = cp_loop_old St sweep normalise nf tol_set it fuel decisions s.
   Proof.
-    induction fuel as [|fuel IH]; intros it decisions s H; [exact H|]. cbn [cp_loop_fix]. unfold norm_if.
-    destruct (fst (hd (false, false) decisions)); [now apply sweep_keeps_weights|].
-    destruct (tol_set && (1 <=? it) && snd (hd (false, false) decisions)); [now apply sweep_keeps_weights|].
-    apply IH. now apply sweep_keeps_weights.
-  Qed.
-  Lemma cp_run_fix_unit_weights tol_set ik all_fixed n decisions s0 :
-    UnitWeights s0 -> UnitWeights (cp_run_fix St sweep normalise false tol_set ik all_fixed n decisions s0).
-  Proof. intros H. unfold cp_run_fix, norm_if. destruct all_fixed; [exact H|]. now apply cp_loop_fix_unit_weights. Qed.
-  (* the repair changes nothing on the paths on which the code was already right *)
-  Lemma cp_loop_fix_same nf tol_set fuel : forall it decisions s, no_callback_stop decisions ->
-    cp_loop_fix St sweep normalise nf tol_set it fuel decisions s = cp_loop St sweep normalise nf tol_set it fuel decisions s.
-  Proof.
-    induction fuel as [|fuel IH]; intros it decisions s Hcb; [reflexivity|]. cbn [cp_loop cp_loop_fix].
+    induction fuel as [|fuel IH]; intros it decisions s Hcb; [reflexivity|]. cbn [cp_loop cp_loop_old].
     rewrite (no_callback_stop_hd _ Hcb).
     destruct (tol_set && (1 <=? it) && snd (hd (false, false) decisions)); [reflexivity|].
     apply IH. now apply no_callback_stop_tl.
   Qed.
-  Lemma cp_run_fix_same nf tol_set ik all_fixed n decisions s0 : no_callback_stop decisions -> ik <> InitUser ->
-    cp_run_fix St sweep normalise nf tol_set ik all_fixed n decisions s0 = cp_run St sweep normalise nf tol_set ik all_fixed n decisions s0.
+  Lemma cp_run_same nf tol_set ik all_fixed n decisions s0 : no_callback_stop decisions -> ik <> InitUser ->
+    cp_run St sweep normalise nf tol_set ik all_fixed n decisions s0 = cp_run_old St sweep normalise nf tol_set ik all_fixed n decisions s0.
   Proof.
-    intros Hcb Hik. unfold cp_run_fix, cp_run.
-    assert (E : init_state St normalise nf ik s0 = norm_if St normalise nf s0) by (destruct ik; [reflexivity | reflexivity | congruence]).
-    rewrite E. destruct all_fixed; [reflexivity|]. now apply cp_loop_fix_same.
+    intros Hcb Hik. unfold cp_run, cp_run_old.
+    assert (E : init_state_old St normalise nf ik s0 = norm_if St normalise nf s0) by (destruct ik; [reflexivity | reflexivity | congruence]).
+    rewrite E. destruct all_fixed; [reflexivity|]. now apply cp_loop_same.
   Qed.
 End SkeletonProofs.
 
 (* ghost instance: the state is the single bit "factors are normalised"; a sweep destroys it, cp_normalize restores it *)
 Definition ghost_run (nf tol_set : bool) (ik : init_kind) (all_fixed : bool) (n : nat) (decisions : list (bool * bool)) : bool :=
   cp_run bool (fun _ => false) (fun _ => true) nf tol_set ik all_fixed n decisions false.
-Definition ghost_run_fix (nf tol_set : bool) (ik : init_kind) (all_fixed : bool) (n : nat) (decisions : list (bool * bool)) : bool :=
-  cp_run_fix bool (fun _ => false) (fun _ => true) nf tol_set ik all_fixed n decisions false.
+Definition ghost_run_old (nf tol_set : bool) (ik : init_kind) (all_fixed : bool) (n : nat) (decisions : list (bool * bool)) : bool :=
+  cp_run_old bool (fun _ => false) (fun _ => true) nf tol_set ik all_fixed n decisions false.
 Definition ghost_run_pinned (nf tol_set : bool) (n : nat) (decisions : list bool) : bool :=
   cp_loop_pinned bool (fun _ => false) (fun _ => true) nf tol_set 0 n decisions true.
-(* the three ways in which the code as it is returns un-normalised factors although normalize_factors = True *)
-Lemma ghost_user_cap0 : forall tol_set decisions, ghost_run true tol_set InitUser false 0 decisions = false.
+Lemma ghost_normalised : forall tol_set ik all_fixed n decisions, ghost_run true tol_set ik all_fixed n decisions = true.
+Proof. intros. apply (cp_run_normalised bool (fun _ => false) (fun _ => true) (fun b => b = true)). reflexivity. Qed.
+(* the three ways in which the control flow before 3de556b returned un-normalised factors although normalize_factors = True *)
+Lemma ghost_old_user_cap0 : forall tol_set decisions, ghost_run_old true tol_set InitUser false 0 decisions = false.
 Proof. reflexivity. Qed.
-Lemma ghost_user_all_fixed : forall tol_set n decisions, ghost_run true tol_set InitUser true n decisions = false.
+Lemma ghost_old_user_all_fixed : forall tol_set n decisions, ghost_run_old true tol_set InitUser true n decisions = false.
 Proof. reflexivity. Qed.
-Lemma ghost_callback_stop : forall tol_set ik n decisions, ghost_run true tol_set ik false (S n) ((true, false) :: decisions) = false.
+Lemma ghost_old_callback_stop : forall tol_set ik n decisions, ghost_run_old true tol_set ik false (S n) ((true, false) :: decisions) = false.
 Proof. reflexivity. Qed.
-Lemma ghost_fix_normalised : forall tol_set ik all_fixed n decisions, ghost_run_fix true tol_set ik all_fixed n decisions = true.
-Proof. intros. apply (cp_run_fix_normalised bool (fun _ => false) (fun _ => true) (fun b => b = true)). reflexivity. Qed.
+(* ... and the one before fe25b5c *)
 Lemma ghost_pinned_break : ghost_run_pinned true true 2 [false; true] = false.
 Proof. reflexivity. Qed.
-Lemma ghost_repaired_break : forall ik, ghost_run true true ik false 2 [(false, false); (false, true)] = true.
-Proof.
-  intros. apply (cp_run_normalised bool (fun _ => false) (fun _ => true) (fun b => b = true)); [reflexivity | |right; split; [lia | reflexivity]].
-  repeat constructor.
-Qed.
 
 (* ------------------------------------------------------------------ the skeleton on event traces *)
 Lemma ends_normalised_snoc t : ends_normalised (t ++ [EvN]) = true.
@@ -484,13 +463,12 @@ Proof.
   unfold trace_sweep. rewrite any_normalise_app. replace (any_normalise (flat_map _ modes)) with false; [apply orb_false_r|].
   induction modes as [|m l IH]; [reflexivity|]. simpl. exact IH.
 Qed.
-(* normalize_factors = True: the returned trace ends with a cp_normalize (model of the code as it is, under the two exclusions) *)
+(* normalize_factors = True: the returned state is the output of a cp_normalize *)
 Lemma trace_run_ends_normalised d tol_set ik n_modes fixed n decisions :
-  no_callback_stop decisions -> ik <> InitUser \/ (0 < n /\ all_fixed d n_modes fixed = false) ->
   ends_normalised (trace_run d true tol_set ik n_modes fixed n decisions) = true.
 Proof.
-  intros Hcb H. unfold trace_run.
-  apply (cp_run_normalised (list ev) _ (fun s => s ++ [EvN]) (fun t => ends_normalised t = true)); try assumption.
+  unfold trace_run.
+  apply (cp_run_normalised (list ev) _ (fun s => s ++ [EvN]) (fun t => ends_normalised t = true)).
   intros s. apply ends_normalised_snoc.
 Qed.
 (* normalize_factors = False: cp_normalize is never applied *)
